@@ -285,7 +285,7 @@ def check(ctx, run):  # noqa: F811
     # Feature.of / FeatureList.of bind a copy, never the receiver
     for cq, mk in (("pfhedge.features._base.Feature", lambda: W.feature("Moneyness", log=False)),
                    ("pfhedge.features.container.FeatureList", None)):
-        of = prog.functions.get(cq + ".of")
+        of = prog.lookup_method(cq, "of")  # the class's own or the one it inherits (a template method with a per-class hook)
         if of is None:
             raise AnalysisError(f"anchor vanished: {cq}.of")
         if mk is None:
